@@ -258,8 +258,9 @@ def run(ctx, model, focus):
         ctx.count("type/" + d[0])
         tail_ok = not tygen.has_kind(d, ("nbytes-1",)) and not _consumes_rest(d)
         for vi in range(vals_per):
-            c = tygen.gen_valid(rng, d)
             tygen.FLAGS.clear()
+            c = tygen.gen_valid(rng, d)
+            inconsistent_bits = "inconsistent-bits" in tygen.FLAGS
             v = tygen.variant(rng, d, c)
             overlong_bits = "overlong-bits" in tygen.FLAGS
             exp = tygen.expected(d, c)
@@ -312,6 +313,8 @@ def run(ctx, model, focus):
             ask("codec.dec %s %s" % (tsx, sx.hexb(buf)), _cb_dec(ctx, "dec-valid", d, buf, r))
             if _nested_pref(d):
                 continue  # nested length-prefixed arrays cannot round-trip by contract (prefix not written)
+            if inconsistent_bits:
+                continue  # host integer and its aliased BOOL members disagree: encode lets the BOOLs win (C07), no fixed point
             if r[0] != "ok":
                 _viol(ctx, focus, "C06", "roundtrip-decode-fails:" + _shape(d),
                       {"op": "rt", "type": d, "value": v, "buf": buf.hex()}, "decode raised %s" % r[1])
